@@ -59,8 +59,9 @@ SELECTIONS = [
 ]
 
 
-def gen_parsed_spec(rng):
-    tests_str, vm_strs, nets = rng.choice(SELECTIONS)
+def gen_parsed_spec(rng, idx=None):
+    """idx: position in SELECTIONS (every selection is covered once per len(SELECTIONS) cases); None: random"""
+    tests_str, vm_strs, nets = SELECTIONS[idx % len(SELECTIONS)] if idx is not None else rng.choice(SELECTIONS)
     cfg = {"test_timeout": 1000}
     if rng.random() < 0.4:
         cfg["max_tries"] = rng.choice([1, 2, 2, 3])
